@@ -21,6 +21,7 @@ import (
 	"strings"
 	"sync"
 	"sync/atomic"
+	"time"
 
 	"github.com/pinealctx/neptune/ds/tree"
 	"github.com/pinealctx/neptune/ds/tree/btree"
@@ -65,7 +66,7 @@ func (a act) rec() tr.E {
 		return tr.E{"op": a.Op, "h": a.H, "fl": a.Fl}
 	case "clone":
 		return tr.E{"op": a.Op, "h": a.H, "h2": a.H2}
-	case "scan":
+	case "scan", "pscan":
 		fr := a.Fr
 		if fr == nil {
 			fr = []int{}
@@ -96,18 +97,52 @@ type sut struct {
 	api  string
 	deg  int
 	wrap *tree.BTree
-	hs   []*btree.BTree // handle h is hs[h-1]; for the wrapper hs[0] is the wrapped tree (read only)
+	hs   []*btree.BTree   // handle h is hs[h-1]; for the wrapper hs[0] is the wrapped tree (read only)
+	hook func(btree.Item) // called by the scan callbacks for every item visited (compound use)
 }
 
-func newSut(api string, deg int) *sut {
+// sharedFree: one free list used by many trees of this process, one after the other and - in the
+// parallel-clone phase - at the same time ("Two Btrees using the same freelist are safe for
+// concurrent write access").
+var sharedFree = btree.NewFreeList(4)
+
+// newSut: fl selects the node free list of an inner tree: < 0 btree.New (default size), otherwise
+// NewWithFreeList with a list of that size (0 = nothing is ever recycled), 1000 = the shared list.
+func newSut(api string, deg int, fl int) *sut {
 	s := &sut{api: api, deg: deg}
-	if api == "wrap" {
+	switch {
+	case api == "wrap":
 		s.wrap = tree.NewBTree()
 		s.hs = []*btree.BTree{s.wrap.VerifInner()}
-	} else {
+	case fl < 0:
 		s.hs = []*btree.BTree{btree.New(deg)}
+	case fl == 1000:
+		s.hs = []*btree.BTree{btree.NewWithFreeList(deg, sharedFree)}
+	default:
+		s.hs = []*btree.BTree{btree.NewWithFreeList(deg, btree.NewFreeList(fl))}
 	}
 	return s
+}
+
+// pscan: a scan whose callback panics (the harness's sentinel) after a.N items.  The panic
+// unwinds through the library; what the clean code guarantees is that nothing changed and that
+// the object stays usable (the wrapper releases its read lock in a defer).  Any other panic is
+// the library's and goes on to safeDo.
+func (s *sut) pscan(a act) (r interface{}) {
+	defer func() {
+		if p := recover(); p != nil {
+			if _, mine := p.(sentinel); !mine {
+				panic(p)
+			}
+			r = 0
+		}
+	}()
+	if s.api == "wrap" {
+		wrapScan(s.wrap, a, nil)
+	} else {
+		innerScan(s.hs[a.H-1], a, nil)
+	}
+	return 0
 }
 
 func pair(x btree.Item) []int { it := x.(item); return []int{it.k, it.v} }
@@ -132,9 +167,20 @@ func passes(k, fm int, fr []int) bool {
 // innerScan calls one of the ten range scans with an iterator that collects what passes the
 // filter and asks to stop once n items are collected.  It keeps appending if it is called
 // again after having returned false, so a scan that does not stop is visible in the reply.
-func innerScan(t *btree.BTree, a act) [][]int {
+func innerScan(t *btree.BTree, a act, hook func(btree.Item)) [][]int {
 	out := make([][]int, 0, 8)
+	calls := 0
 	it := func(x btree.Item) bool {
+		calls++
+		if a.Op == "pscan" {
+			if calls > a.N {
+				panic(sentinel{})
+			}
+			return true
+		}
+		if hook != nil {
+			hook(x)
+		}
 		if a.N > 0 && passes(x.(item).k, a.Fm, a.Fr) {
 			out = append(out, pair(x))
 		}
@@ -168,27 +214,62 @@ func innerScan(t *btree.BTree, a act) [][]int {
 	return out
 }
 
-func wrapScan(b *tree.BTree, a act) [][]int {
-	f := func(n tree.Node) bool { return passes(n.(item).k, a.Fm, a.Fr) }
+// held: the slice a wrapper scan returned, kept AS RETURNED (no copy).  It is rendered into the
+// trace by resolve() - at once, or only when the history / round is over (retained results: a
+// later call must not change what an earlier call handed out).
+type held struct{ ns []tree.Node }
+
+func resolve(rep interface{}) interface{} {
+	h, ok := rep.(held)
+	if !ok {
+		return rep
+	}
+	out := make([][]int, 0, len(h.ns))
+	for _, n := range h.ns {
+		it, ok := n.(item)
+		if !ok {
+			out = append(out, []int{-999999, -999999}) // a foreign / nil node in a result: visible to the spec
+			continue
+		}
+		out = append(out, []int{it.k, it.v})
+	}
+	return out
+}
+
+// sentinel: the harness's own panic thrown from inside a callback (op "pscan")
+type sentinel struct{}
+
+func wrapScan(b *tree.BTree, a act, hook func(btree.Item)) interface{} {
+	calls := 0
+	f := func(n tree.Node) bool {
+		calls++
+		if a.Op == "pscan" && calls > a.N {
+			panic(sentinel{})
+		}
+		if hook != nil {
+			hook(n)
+		}
+		return passes(n.(item).k, a.Fm, a.Fr)
+	}
+	lim := a.N
+	if a.Op == "pscan" {
+		lim = 1000
+	}
 	var ns []tree.Node
 	p := item{a.P, 0}
 	switch a.Fn {
 	case "AscendGte":
-		ns = b.AscendGte(p, f, a.N)
+		ns = b.AscendGte(p, f, lim)
 	case "AscendGt":
-		ns = b.AscendGt(p, f, a.N)
+		ns = b.AscendGt(p, f, lim)
 	case "DescendLte":
-		ns = b.DescendLte(p, f, a.N)
+		ns = b.DescendLte(p, f, lim)
 	case "DescendLt":
-		ns = b.DescendLt(p, f, a.N)
+		ns = b.DescendLt(p, f, lim)
 	default:
 		tr.Fatal("unknown wrapper scan %q", a.Fn)
 	}
-	out := make([][]int, 0, len(ns))
-	for _, n := range ns {
-		out = append(out, pair(n))
-	}
-	return out
+	return held{ns}
 }
 
 func (s *sut) do(a act) interface{} {
@@ -207,7 +288,9 @@ func (s *sut) do(a act) interface{} {
 		case "get":
 			return opt(b.Get(item{a.K, 0}))
 		case "scan":
-			return wrapScan(b, a)
+			return wrapScan(b, a, s.hook)
+		case "pscan":
+			return s.pscan(a)
 		case "nop":
 			return 0
 		}
@@ -246,7 +329,9 @@ func (s *sut) do(a act) interface{} {
 		s.hs = append(s.hs, t.Clone())
 		return 0
 	case "scan":
-		return innerScan(t, a)
+		return innerScan(t, a, s.hook)
+	case "pscan":
+		return s.pscan(a)
 	}
 	tr.Fatal("inner tree has no op %q", a.Op)
 	return nil
@@ -254,7 +339,10 @@ func (s *sut) do(a act) interface{} {
 
 // safeDo converts a panic inside the library into an event the spec cannot explain.
 func (s *sut) safeDo(a act) (r interface{}, panicked bool) {
+	atomic.AddInt64(&inCall, 1)
 	defer func() {
+		atomic.AddInt64(&inCall, -1)
+		atomic.AddInt64(&progress, 1)
 		if p := recover(); p != nil {
 			r = fmt.Sprintf("panic: %v", p)
 			panicked = true
@@ -262,6 +350,10 @@ func (s *sut) safeDo(a act) (r interface{}, panicked bool) {
 	}()
 	return s.do(a), false
 }
+
+// progress / inCall: read by the watchdog (see main): a call into the library that does not come
+// back is an observation (`stuck` event), not a hang of the harness.
+var progress, inCall int64
 
 func contents(t *btree.BTree) [][]int {
 	out := make([][]int, 0, t.Len())
@@ -307,6 +399,16 @@ func sig(n *btree.VerifNode, sb *strings.Builder) {
 		}
 	}
 	sb.WriteByte(')')
+}
+
+func safeShape(t *btree.BTree) (sg string, height int, seps []int, ok bool) {
+	defer func() {
+		if p := recover(); p != nil {
+			ok = false
+		}
+	}()
+	sg, height, seps = shape(t)
+	return sg, height, seps, true
 }
 
 func shape(t *btree.BTree) (string, int, []int) {
@@ -359,9 +461,9 @@ func (s *sut) obs(full bool, hs []int, dumps []int) tr.E {
 // ------------------------------------------------------------------ statistics (evidence only)
 
 type stats struct {
-	Events, Writes, Scans, Sweeps, Changes, MaxHeight, MaxKeys, Clones, Panics, RaceRounds, RaceKept int
-	Heights                                                                                          map[int]int
-	Degrees                                                                                          map[int]int
+	Events, Writes, Scans, Sweeps, Changes, MaxHeight, MaxKeys, Clones, Panics, RaceRounds, RaceKept, Compound, Cold, Stuck, Retained int
+	Heights                                                                                                                           map[int]int
+	Degrees                                                                                                                           map[int]int
 }
 
 var st = stats{Heights: map[int]int{}, Degrees: map[int]int{}}
@@ -380,6 +482,9 @@ type runner struct {
 	last   map[int]string // structure signature per handle after its latest write
 	dead   bool
 	done   act // the action as executed (version / new handle filled in)
+	cur    act // the action being executed (for the watchdog's stuck event)
+	retain bool
+	buf    []pending
 	// sh: the generator's own idea of which keys each handle holds, computed from the calls it
 	// issued (never from the tree's answers); used only to bias key choice towards present keys.
 	sh []map[int]bool
@@ -436,6 +541,58 @@ func (r *runner) shadow(a act) {
 	}
 }
 
+// out: every event of the runner goes through here.  With retain the events of the whole trace
+// are kept in memory and written when it is over, so that aggregates returned by calls (wrapper
+// scan results) are rendered only then - as a caller that keeps its results would see them.
+// Without retain an event is written (and flushed) at once, which keeps crash evidence.
+type pending struct {
+	e   tr.E
+	rep interface{}
+}
+
+func (r *runner) out(e tr.E, rep interface{}) {
+	if r.retain {
+		r.buf = append(r.buf, pending{e, rep})
+		return
+	}
+	if rep != nil {
+		e["r"] = resolve(rep)
+	}
+	r.w.Emit(e)
+}
+
+func (r *runner) flush() {
+	for _, p := range r.buf {
+		if p.rep != nil {
+			p.e["r"] = resolve(p.rep)
+		}
+		r.w.Emit(p.e)
+	}
+	r.buf = nil
+}
+
+// die: the trace ends with an event the spec has no arm for (panic / stuck)
+func (r *runner) die(kind string, a act, msg string) {
+	st.Panics++
+	r.flush()
+	r.w.Emit(tr.E{"ev": kind, "a": a.rec(), "msg": tr.Str(msg)})
+	r.dead = true // the tree may be in any state; the trace ends here (and is rejected)
+}
+
+// safeObs: reading the tree for the observation runs library code too (Ascend, the dump hook):
+// a panic there is an observation about the tree, not a crash of the harness.
+func (r *runner) safeObs(full bool, hs []int, dumps []int) (o tr.E, msg string) {
+	atomic.AddInt64(&inCall, 1)
+	defer func() {
+		atomic.AddInt64(&inCall, -1)
+		atomic.AddInt64(&progress, 1)
+		if p := recover(); p != nil {
+			msg = fmt.Sprintf("panic while observing: %v", p)
+		}
+	}()
+	return r.s.obs(full, hs, dumps), ""
+}
+
 func (r *runner) emitCall(a act, withObs bool) {
 	if r.dead {
 		return
@@ -448,19 +605,21 @@ func (r *runner) emitCall(a act, withObs bool) {
 		a.H2 = len(r.s.hs) + 1
 		st.Clones++
 	}
+	r.cur = a
 	rep, panicked := r.s.safeDo(a)
 	r.done = a
+	if r.dead { // a nested call (compound use) already ended the trace
+		return
+	}
 	if panicked {
-		st.Panics++
-		r.w.Emit(tr.E{"ev": "panic", "a": a.rec(), "msg": tr.Str(rep.(string))})
-		r.dead = true // the tree may be in any state; the trace ends here (and is rejected)
+		r.die("panic", a, rep.(string))
 		return
 	}
 	if a.Op == "scan" {
 		st.Scans++
 	}
 	if !withObs {
-		r.w.Emit(tr.E{"ev": "callr", "a": a.rec(), "r": rep})
+		r.out(tr.E{"ev": "callr", "a": a.rec()}, rep)
 		return
 	}
 	r.nw++
@@ -479,7 +638,13 @@ func (r *runner) emitCall(a act, withObs bool) {
 	if a.Op == "clone" {
 		hs = append(hs, a.H2)
 	}
-	r.w.Emit(tr.E{"ev": "call", "a": a.rec(), "r": rep, "obs": r.s.obs(full, hs, dumps)})
+	o, msg := r.safeObs(full, hs, dumps)
+	if msg != "" {
+		r.out(tr.E{"ev": "callr", "a": a.rec()}, rep)
+		r.die("panic", act{Op: "nop"}, msg)
+		return
+	}
+	r.out(tr.E{"ev": "call", "a": a.rec(), "obs": o}, rep)
 }
 
 func (r *runner) step(a act) {
@@ -501,7 +666,10 @@ func (r *runner) step(a act) {
 		h = a.H2
 	}
 	t := r.s.hs[h-1]
-	sg, height, _ := shape(t)
+	sg, height, _, ok := safeShape(t)
+	if !ok {
+		return // the dump of this tree panics; the observation of the next write will say so
+	}
 	st.Heights[height]++
 	if height > st.MaxHeight {
 		st.MaxHeight = height
@@ -547,7 +715,7 @@ func (r *runner) pivots(h int) []int {
 			set[p] = true
 		}
 	} else {
-		_, _, seps := shape(r.s.hs[h-1])
+		_, _, seps, _ := safeShape(r.s.hs[h-1])
 		if len(seps) > 6 {
 			r.rng.Shuffle(len(seps), func(i, j int) { seps[i], seps[j] = seps[j], seps[i] })
 			seps = seps[:6]
@@ -558,6 +726,9 @@ func (r *runner) pivots(h int) []int {
 		for i := 0; i < 5; i++ {
 			set[r.lo+r.rng.Intn(r.hi-r.lo+1)] = true
 		}
+	}
+	if r.rng.Intn(3) == 0 { // far beyond every key, both sides
+		set[-(1<<30)], set[1<<30] = true, true
 	}
 	out := make([]int, 0, len(set))
 	for p := range set {
@@ -610,6 +781,7 @@ func (r *runner) doSweep(h int) {
 
 func (r *runner) finish() {
 	if r.dead {
+		curRunner = nil
 		return
 	}
 	for h := 1; h <= len(r.s.hs); h++ {
@@ -620,12 +792,108 @@ func (r *runner) finish() {
 	r.dumpK = 1
 	r.emitCall(act{Op: "nop"}, true)
 	r.dumpK = k
+	r.flush()
+	curRunner = nil
 }
 
-func newRunner(w *tr.W, rng *rand.Rand, api string, deg, lo, hi, sweep, dumpK int, src string) *runner {
-	w.Emit(tr.E{"ev": "reset", "api": api, "deg": deg, "threads": 1, "src": src, "lo": lo, "hi": hi})
-	st.Degrees[deg]++
-	return &runner{w: w, s: newSut(api, deg), rng: rng, lo: lo, hi: hi, sweep: sweep, dumpK: dumpK, last: map[int]string{}}
+// curRunner: the sequential runner at work (the watchdog ends its trace with a stuck event)
+var curRunner *runner
+
+type cfg struct {
+	api, src                      string
+	deg, fl, lo, hi, sweep, dumpK int
+	retain                        bool
+}
+
+func newRunner(w *tr.W, rng *rand.Rand, c cfg) *runner {
+	w.Emit(tr.E{"ev": "reset", "api": c.api, "deg": c.deg, "threads": 1, "src": c.src, "lo": c.lo, "hi": c.hi,
+		"freelist": c.fl, "retain": c.retain})
+	st.Degrees[c.deg]++
+	r := &runner{w: w, s: newSut(c.api, c.deg, c.fl), rng: rng, lo: c.lo, hi: c.hi, sweep: c.sweep, dumpK: c.dumpK,
+		last: map[int]string{}, retain: c.retain}
+	curRunner = r
+	return r
+}
+
+// ------------------------------------------------------------------ life cycle, compound use, callback panics
+
+// coldPrologue: everything the API permits on a tree that never held an item (no root yet), in
+// the order a caller may well use: readers, deletes, scans, a panicking callback, Clone and
+// Clear of the empty tree, Clear twice, then first writes into the clone and the original.
+func (r *runner) coldPrologue() {
+	if r.s.api == "wrap" {
+		r.step(act{Op: "get", H: 1, K: r.lo})
+		r.step(act{Op: "del", H: 1, K: r.lo})
+		r.step(act{Op: "upd", H: 1, O: r.lo, K: r.lo + 1})
+		for _, fn := range wrapScans {
+			r.step(act{Op: "scan", H: 1, Fn: fn, P: r.lo, Fm: 1, Fr: []int{0}, N: []int{0, 1, 1000}[r.rng.Intn(3)]})
+		}
+		r.step(act{Op: "pscan", H: 1, Fn: wrapScans[r.rng.Intn(4)], P: r.lo, Fm: 1, Fr: []int{0}, N: 0})
+		r.step(act{Op: "upsert", H: 1, O: r.lo, K: r.lo + 1})
+		r.step(act{Op: "del", H: 1, K: r.lo + 1})
+		r.step(act{Op: "get", H: 1, K: r.lo + 1})
+		return
+	}
+	for _, op := range []string{"len", "min", "max", "get", "has", "delmin", "delmax", "idel"} {
+		r.step(act{Op: op, H: 1, K: r.lo})
+	}
+	for _, fn := range innerScans {
+		r.step(act{Op: "scan", H: 1, Fn: fn, P: r.lo, Q: r.hi, Fm: 1, Fr: []int{0}, N: []int{0, 1, 1000}[r.rng.Intn(3)]})
+	}
+	r.step(act{Op: "pscan", H: 1, Fn: "Ascend", Fm: 1, Fr: []int{0}, N: 0})
+	r.step(act{Op: "clear", H: 1, Fl: true})
+	r.step(act{Op: "clone", H: 1})
+	r.step(act{Op: "clear", H: 2, Fl: r.rng.Intn(2) == 0})
+	r.step(act{Op: "clear", H: 2, Fl: true})
+	r.step(act{Op: "roi", H: 2, K: r.lo})
+	r.step(act{Op: "len", H: 1})
+	r.step(act{Op: "roi", H: 1, K: r.lo + 1})
+	r.step(act{Op: "idel", H: 2, K: r.lo})
+	r.step(act{Op: "delmin", H: 2})
+	r.step(act{Op: "clear", H: 1, Fl: false})
+	r.step(act{Op: "min", H: 1})
+}
+
+// compound: ONE caller using the object from inside its own scan callback, as far as the clean
+// code guarantees it: (mode 0) point reads and a nested scan of the SAME tree for the first items
+// visited - on the wrapper this re-enters the read lock, which is safe while no writer waits, i.e.
+// in a single goroutine; (mode 1, inner tree) writes to ANOTHER handle (a clone sharing nodes with
+// the tree being iterated): copy-on-write promises the running iteration does not notice.  Nested
+// calls are ordinary recorded calls (they precede the outer call in the log: reads change nothing,
+// and a write to another handle commutes with the scan in the model).
+func (r *runner) compound(a act, mode int, other int) {
+	n := 0
+	r.s.hook = func(x btree.Item) {
+		n++
+		it, ok := x.(item)
+		if n > 3 || !ok || r.dead {
+			return
+		}
+		hk := r.s.hook
+		r.s.hook = nil
+		defer func() { r.s.hook = hk }()
+		switch {
+		case mode == 1 && other >= 1:
+			if n%2 == 1 {
+				r.emitCall(act{Op: "roi", H: other, K: it.k}, true)
+			} else {
+				r.emitCall(act{Op: "idel", H: other, K: it.k}, true)
+			}
+			if !r.dead {
+				r.shadow(r.done)
+			}
+		case r.s.api == "wrap":
+			r.emitCall(act{Op: "get", H: 1, K: it.k}, false)
+			r.emitCall(act{Op: "scan", H: 1, Fn: wrapScans[n%4], P: it.k, Fm: 1, Fr: []int{0}, N: 2}, false)
+		default:
+			r.emitCall(act{Op: []string{"get", "has", "min", "max", "len"}[n%5], H: a.H, K: it.k}, false)
+			r.emitCall(act{Op: "scan", H: a.H, Fn: []string{"AscendGreater", "DescendLess", "AscendGreaterOrEqual"}[n%3],
+				P: it.k, Fm: 1, Fr: []int{0}, N: 2}, false)
+		}
+	}
+	r.emitCall(a, false)
+	r.s.hook = nil
+	st.Compound++
 }
 
 // ------------------------------------------------------------------ plans
@@ -655,9 +923,10 @@ func readPlan(path string) []act {
 // that splits at every level, steals from both siblings, merges and root collapse occur.
 func randHistory(w *tr.W, rng *rand.Rand, idx, maxops, sweep int) {
 	api := "inner"
-	deg := []int{2, 2, 3, 4, 8, 5}[rng.Intn(6)]
+	deg := []int{2, 2, 3, 4, 8, 5, 16, 2, 3}[rng.Intn(9)]
+	fl := []int{-1, -1, 0, 1, 2, 1000, 1000}[rng.Intn(7)] // node free list: default, none, tiny, shared
 	if idx%3 == 0 {
-		api, deg = "wrap", 2
+		api, deg, fl = "wrap", 2, -1
 	}
 	var nkeys int
 	switch rng.Intn(5) {
@@ -669,17 +938,34 @@ func randHistory(w *tr.W, rng *rand.Rand, idx, maxops, sweep int) {
 		nkeys = 30 + rng.Intn(31) // <= 60
 	}
 	dumpK := 1
-	if idx%11 == 10 { // a large one: keys 0..200, observations every 6th write
+	if idx%11 == 10 { // a large one: keys 0..200, observations every 6th write, also wide nodes
 		nkeys, dumpK = 201, 6
+		if api == "inner" {
+			deg = []int{2, 3, 8, 16, 32, 64}[rng.Intn(6)]
+		}
 	}
 	lo := rng.Intn(3) // domain lo..lo+nkeys-1, pivots from lo-1 (may be -1: below every key)
 	hi := lo + nkeys - 1
-	r := newRunner(w, rng, api, deg, lo, hi, sweep, dumpK, "rand")
+	retain := idx%2 == 1 // half of the histories keep what calls returned until the history is over
+	if retain {
+		st.Retained++
+	}
+	r := newRunner(w, rng, cfg{api: api, src: "rand", deg: deg, fl: fl, lo: lo, hi: hi, sweep: sweep, dumpK: dumpK, retain: retain})
+	if idx%4 == 1 {
+		st.Cold++
+		r.coldPrologue()
+	}
+	far := idx%8 == 5 // keys at the far ends of the integer range TLC can hold
 	nops := maxops/2 + rng.Intn(maxops/2+1)
 	if dumpK > 1 {
 		nops = maxops * 2
 	}
-	key := func() int { return lo + rng.Intn(nkeys) }
+	key := func() int {
+		if far && rng.Intn(30) == 0 {
+			return []int{-(1 << 30), 1 << 30, -(1 << 30) + 1, (1 << 30) - 1}[rng.Intn(4)]
+		}
+		return lo + rng.Intn(nkeys)
+	}
 	present := func(h int) (int, bool) { // a key the generator believes to be in handle h
 		if h > len(r.sh) || len(r.sh[h-1]) == 0 {
 			return 0, false
@@ -752,7 +1038,15 @@ func randHistory(w *tr.W, rng *rand.Rand, idx, maxops, sweep int) {
 			default:
 				a := act{Op: "scan", H: 1, Fn: wrapScans[rng.Intn(4)], P: lo - 1 + rng.Intn(nkeys+2)}
 				r.randFilterN(&a)
-				r.step(a)
+				switch rng.Intn(5) {
+				case 0:
+					r.compound(a, 0, 0)
+				case 1:
+					a.Op, a.N = "pscan", rng.Intn(4)
+					r.step(a)
+				default:
+					r.step(a)
+				}
 			}
 			continue
 		}
@@ -796,7 +1090,22 @@ func randHistory(w *tr.W, rng *rand.Rand, idx, maxops, sweep int) {
 				a.Q = lo - 1 + rng.Intn(nkeys+2)
 			}
 			r.randFilterN(&a)
-			r.step(a)
+			switch rng.Intn(6) {
+			case 0:
+				r.compound(a, 0, 0)
+			case 1:
+				other := 1 + rng.Intn(len(r.s.hs))
+				if other != h {
+					r.compound(a, 1, other)
+				} else {
+					r.step(a)
+				}
+			case 2:
+				a.Op, a.N = "pscan", rng.Intn(4)
+				r.step(a)
+			default:
+				r.step(a)
+			}
 		}
 	}
 	r.finish()
@@ -822,19 +1131,65 @@ type pevent struct {
 	lens  []int
 }
 
+// waitFor: a join with a watchdog.  false = some goroutine is still inside the library after
+// stuckAfter (blocked or spinning): the caller logs a `stuck` event, which the spec rejects.
+var stuckAfter = 20 * time.Second
+
+// guard runs harness code that reads the tree (library code: Ascend, the dump hook); a panic
+// there is reported as a message, to be logged as a panic event.
+func guard(f func()) (msg string) {
+	defer func() {
+		if p := recover(); p != nil {
+			msg = fmt.Sprintf("panic while observing: %v", p)
+		}
+	}()
+	f()
+	return ""
+}
+
+func finalObs(w *tr.W, s *sut) {
+	var o tr.E
+	if msg := guard(func() { o = s.obs(true, nil, []int{1}) }); msg != "" {
+		st.Panics++
+		w.Emit(tr.E{"ev": "panic", "a": tr.E{"op": "nop"}, "msg": tr.Str(msg)})
+		return
+	}
+	w.Emit(tr.E{"ev": "final", "obs": o})
+}
+
+func waitFor(wg *sync.WaitGroup) bool {
+	done := make(chan struct{})
+	go func() { wg.Wait(); close(done) }()
+	select {
+	case <-done:
+		return true
+	case <-time.After(stuckAfter):
+		return false
+	}
+}
+
 func runParallel(w *tr.W, rng *rand.Rand, nthreads, opsPer int) {
 	deg := []int{2, 2, 3, 4}[rng.Intn(4)]
 	nkeys := 12 + rng.Intn(30)
-	r := newRunner(w, rng, "inner", deg, 0, nkeys-1, 0, 1, "parallel")
-	// base tree, sequentially
-	for i := 0; i < nkeys; i++ {
-		if rng.Intn(4) > 0 {
-			r.step(act{Op: "roi", H: 1, K: rng.Intn(nkeys)})
+	r := newRunner(w, rng, cfg{api: "inner", src: "parallel", deg: deg, fl: []int{-1, 0, 1, 1000}[rng.Intn(4)],
+		lo: 0, hi: nkeys - 1, dumpK: 1})
+	// base tree, sequentially (one time in six it stays empty: clones of a tree without a root,
+	// first written by several goroutines at once)
+	if rng.Intn(6) > 0 {
+		for i := 0; i < nkeys; i++ {
+			if rng.Intn(4) > 0 {
+				r.step(act{Op: "roi", H: 1, K: rng.Intn(nkeys)})
+			}
 		}
 	}
 	for i := 0; i < nthreads-1; i++ { // one clone per further goroutine, some of them clones of clones
 		r.step(act{Op: "clone", H: 1 + rng.Intn(len(r.s.hs))})
 	}
+	// one more clone that nobody writes: every goroutine READS it while all of them write their own
+	// trees (readers of one tree in parallel, sharing nodes with trees under modification)
+	r.step(act{Op: "clone", H: 1 + rng.Intn(len(r.s.hs))})
+	r.flush()
+	curRunner = nil
 	if r.dead {
 		return
 	}
@@ -856,13 +1211,19 @@ func runParallel(w *tr.W, rng *rand.Rand, nthreads, opsPer int) {
 			defer wg.Done()
 			lr := rand.New(rand.NewSource(seeds[g]))
 			mine := []*phandle{hs[g]}
+			frozen := hs[nthreads]
 			v := ver + g*100000
 			<-start
 			for i := 0; i < opsPer; i++ {
 				ph := mine[lr.Intn(len(mine))]
 				k := lr.Intn(nkeys)
 				var a act
-				switch x := lr.Intn(100); {
+				x := lr.Intn(100)
+				if lr.Intn(4) == 0 { // a read of the tree everybody reads
+					ph = frozen
+					x = 80 + lr.Intn(20)
+				}
+				switch {
 				case x < 40:
 					v++
 					a = act{Op: "roi", K: k, V: v}
@@ -872,8 +1233,10 @@ func runParallel(w *tr.W, rng *rand.Rand, nthreads, opsPer int) {
 					a = act{Op: []string{"delmin", "delmax"}[lr.Intn(2)]}
 				case x < 78 && len(mine) < 3:
 					a = act{Op: "clone"}
-				case x < 80:
+				case x < 80 && ph != frozen:
 					a = act{Op: "clear", Fl: lr.Intn(2) == 0}
+				case x < 80:
+					a = act{Op: "len"}
 				case x < 88:
 					a = act{Op: []string{"get", "has", "len", "min", "max"}[lr.Intn(5)], K: k}
 				default:
@@ -905,11 +1268,18 @@ func runParallel(w *tr.W, rng *rand.Rand, nthreads, opsPer int) {
 					}
 				}()
 				if !ev.panic && isWrite(a.Op) {
-					for _, m := range mine { // everything this goroutine owns: isolation among its own clones
-						ev.own = append(ev.own, m)
-						ev.items = append(ev.items, contents(m.t))
-						ev.lens = append(ev.lens, m.t.Len())
-					}
+					func() {
+						defer func() {
+							if p := recover(); p != nil {
+								ev.r, ev.panic = fmt.Sprintf("panic while observing: %v", p), true
+							}
+						}()
+						for _, m := range mine { // everything this goroutine owns: isolation among its own clones
+							ev.own = append(ev.own, m)
+							ev.items = append(ev.items, contents(m.t))
+							ev.lens = append(ev.lens, m.t.Len())
+						}
+					}()
 				}
 				logs[g] = append(logs[g], ev)
 				if ev.panic {
@@ -919,7 +1289,13 @@ func runParallel(w *tr.W, rng *rand.Rand, nthreads, opsPer int) {
 		}(g)
 	}
 	close(start)
-	wg.Wait()
+	if !waitFor(&wg) {
+		// a call did not come back: what is logged so far cannot be read safely; the observation is
+		// the stuck call itself
+		st.Stuck++
+		w.Emit(tr.E{"ev": "stuck", "src": "parallel"})
+		return
+	}
 	next := len(hs) + 1
 	final := append([]*phandle{}, hs...)
 	for g := range logs {
@@ -954,9 +1330,16 @@ func runParallel(w *tr.W, rng *rand.Rand, nthreads, opsPer int) {
 	// after the join: every handle, contents and structure
 	all := make([]tr.E, 0, len(final))
 	ds := make([]tr.E, 0, len(final))
-	for _, m := range final {
-		all = append(all, tr.E{"h": m.id, "items": contents(m.t), "len": m.t.Len()})
-		ds = append(ds, dumpOf(m.id, m.t))
+	msg := guard(func() {
+		for _, m := range final {
+			all = append(all, tr.E{"h": m.id, "items": contents(m.t), "len": m.t.Len()})
+			ds = append(ds, dumpOf(m.id, m.t))
+		}
+	})
+	if msg != "" {
+		st.Panics++
+		w.Emit(tr.E{"ev": "panic", "a": tr.E{"op": "nop"}, "msg": tr.Str(msg)})
+		return
 	}
 	w.Emit(tr.E{"ev": "call", "a": tr.E{"op": "nop"}, "r": 0, "obs": tr.E{"full": true, "all": all, "dumps": ds}})
 }
@@ -966,8 +1349,8 @@ func runParallel(w *tr.W, rng *rand.Rand, nthreads, opsPer int) {
 // runConc: T goroutines call the wrapper freely; inv/res are appended to one log under a mutex
 // taken outside the wrapper's lock, so the log order is consistent with real time and the
 // effect of a call lies between its inv and its res.  TLC searches for a linearization.
-func runConc(w *tr.W, rng *rand.Rand, threads, opsPer, nkeys int) {
-	s := newSut("wrap", 2)
+func runConc(w *tr.W, rng *rand.Rand, threads, opsPer, nkeys int) bool {
+	s := newSut("wrap", 2, -1)
 	var mu sync.Mutex
 	var evs []tr.E
 	logf := func(e tr.E) {
@@ -1034,16 +1417,29 @@ func runConc(w *tr.W, rng *rand.Rand, threads, opsPer, nkeys int) {
 		}(t)
 	}
 	close(start)
-	wg.Wait()
+	stuck := !waitFor(&wg)
+	mu.Lock() // a goroutine that is stuck inside the wrapper does not hold the log mutex
+	defer mu.Unlock()
 	w.Emit(tr.E{"ev": "reset", "api": "wrap", "deg": 2, "threads": threads, "src": "conc", "lo": 0, "hi": nkeys - 1})
 	for _, e := range evs {
+		if rep, ok := e["r"]; ok {
+			e["r"] = resolve(rep) // scan results were kept as returned until every thread was done
+		}
 		w.Emit(e)
 	}
+	if stuck {
+		st.Stuck++
+		w.Emit(tr.E{"ev": "stuck", "src": "conc"})
+		return false
+	}
+	pmu.Lock()
+	defer pmu.Unlock()
 	if panicked {
 		st.Panics++
-		return
+		return true
 	}
-	w.Emit(tr.E{"ev": "final", "obs": s.obs(true, nil, []int{1})})
+	finalObs(w, s)
+	return true
 }
 
 // ------------------------------------------------------------------ race rounds on the wrapper
@@ -1056,14 +1452,15 @@ func runConc(w *tr.W, rng *rand.Rand, threads, opsPer, nkeys int) {
 // order is consistent with real time without any lock of the harness in the way.  Only rounds in
 // which calls really overlapped are kept; each ends with the sequential contents + dump.  TLC
 // searches for a linearization; nothing is judged here.
-func runRaces(w *tr.W, rng *rand.Rand, rounds, keep int) (int, int) {
+func runRaces(w *tr.W, rng *rand.Rand, rounds, keep int, budget time.Duration) (int, int) {
+	t0 := time.Now()
 	writers := []string{"ins", "upd", "upsert", "del"}
 	every := []string{"ins", "upd", "upsert", "del", "get", "AscendGte", "AscendGt", "DescendLte", "DescendLt"}
 	kept, ran := 0, 0
 	const hot = 5
-	for r := 0; r < rounds && kept < keep; r++ {
+	for r := 0; r < rounds && kept < keep && time.Since(t0) < budget; r++ { // the budget only bounds the run on a loaded machine
 		ran++
-		s := newSut("wrap", 2)
+		s := newSut("wrap", 2, -1)
 		ver := 0
 		mk := func(kind string, t int) act {
 			ver++
@@ -1088,8 +1485,17 @@ func runRaces(w *tr.W, rng *rand.Rand, rounds, keep int) (int, int) {
 		threads := 2
 		progs := make([][]act, 0, 3)
 		var pre []act
-		nfill := 2 + rng.Intn(5)
-		for _, k := range rng.Perm(9)[:nfill] {
+		cold := r%8 == 3 // a fresh wrapper (no root yet) first touched by all goroutines at once
+		big := r%16 == 7 // a tree of some size: one call that works for a while against short ones
+		nfill, span := 2+rng.Intn(5), 9
+		if big {
+			nfill, span = 12+rng.Intn(19), 60
+		}
+		if cold {
+			nfill = 0
+			st.Cold++
+		}
+		for _, k := range rng.Perm(span)[:nfill] {
 			if k+1 != hot {
 				ver++
 				pre = append(pre, act{Op: "ins", H: 1, K: k + 1, V: ver})
@@ -1115,7 +1521,7 @@ func runRaces(w *tr.W, rng *rand.Rand, rounds, keep int) (int, int) {
 				progs = append(progs, pr)
 			}
 		}
-		if hotIn {
+		if hotIn && !cold {
 			ver++
 			pre = append(pre, act{Op: "ins", H: 1, K: hot, V: ver})
 		}
@@ -1161,7 +1567,17 @@ func runRaces(w *tr.W, rng *rand.Rand, rounds, keep int) (int, int) {
 				runtime.Gosched()
 			}
 			atomic.StoreInt32(&goFlag, 1)
-			wg.Wait()
+			if !waitFor(&wg) {
+				// a call did not come back (the per-thread logs are still owned by their goroutines)
+				st.Stuck++
+				kept++
+				w.Emit(tr.E{"ev": "reset", "api": "wrap", "deg": 2, "threads": threads, "src": "race", "lo": 1, "hi": 60})
+				for _, e := range prelog {
+					w.Emit(e)
+				}
+				w.Emit(tr.E{"ev": "stuck", "src": "race", "progs": fmt.Sprint(progs)})
+				return ran, kept
+			}
 		}
 		var all []sev
 		for _, p := range per {
@@ -1186,18 +1602,22 @@ func runRaces(w *tr.W, rng *rand.Rand, rounds, keep int) (int, int) {
 			continue
 		}
 		kept++
-		w.Emit(tr.E{"ev": "reset", "api": "wrap", "deg": 2, "threads": threads, "src": "race", "lo": 1, "hi": 13})
+		w.Emit(tr.E{"ev": "reset", "api": "wrap", "deg": 2, "threads": threads, "src": "race", "lo": 1, "hi": 60,
+			"cold": cold, "big": big})
 		for _, e := range prelog {
 			w.Emit(e)
 		}
 		for _, x := range all {
+			if rep, ok := x.e["r"]; ok {
+				x.e["r"] = resolve(rep) // results kept as returned until the round was over
+			}
 			w.Emit(x.e)
 		}
 		if panicked {
 			st.Panics++
 			continue
 		}
-		w.Emit(tr.E{"ev": "final", "obs": s.obs(true, nil, []int{1})})
+		finalObs(w, s)
 	}
 	return ran, kept
 }
@@ -1216,16 +1636,56 @@ func main() {
 	nstress := flag.Int("nstress", 6, "long concurrent wrapper histories")
 	nrace := flag.Int("nrace", 20000, "race rounds on the wrapper (at most)")
 	nracekeep := flag.Int("nracekeep", 1200, "race rounds with real overlap to keep")
+	racesecs := flag.Int("racesecs", 12, "wall-clock budget of the race rounds (seconds)")
 	sweep := flag.Int("sweep", 4, "probability (percent) of a scan sweep after a write that changed the node structure (always one per handle at the end of a trace)")
 	statf := flag.String("stats", "", "write statistics (json) here")
 	flag.Parse()
 	rng := rand.New(rand.NewSource(*seed))
 
 	w := tr.Create(*out)
+	cw := tr.Create(*conc)
+	finish := func() {
+		w.Close()
+		cw.Close()
+		st.Events = w.N() + cw.N()
+		if *statf != "" {
+			bs, _ := json.Marshal(st)
+			if err := os.WriteFile(*statf, bs, 0o644); err != nil {
+				tr.Fatal("%v", err)
+			}
+		}
+		fmt.Printf("seq_events=%d conc_events=%d max_height=%d panics=%d stuck=%d\n", w.N(), cw.N(), st.MaxHeight, st.Panics, st.Stuck)
+	}
+	// watchdog of the sequential phases: a call into the library that neither returns nor panics
+	// (blocked on a lock it forgot to release, or looping) ends the current trace with a `stuck`
+	// event - which the spec rejects - and the run; the concurrent phases have their own (waitFor).
+	go func() {
+		last, since := atomic.LoadInt64(&progress), time.Now()
+		for {
+			time.Sleep(500 * time.Millisecond)
+			p := atomic.LoadInt64(&progress)
+			if p != last || atomic.LoadInt64(&inCall) == 0 {
+				last, since = p, time.Now()
+				continue
+			}
+			if time.Since(since) < stuckAfter+10*time.Second {
+				continue
+			}
+			st.Stuck++
+			if r := curRunner; r != nil {
+				r.flush()
+				r.w.Emit(tr.E{"ev": "stuck", "src": "sequential", "a": r.cur.rec()})
+			} else {
+				cw.Emit(tr.E{"ev": "stuck", "src": "unknown"})
+			}
+			finish()
+			os.Exit(0)
+		}
+	}()
 	if *plans != "" {
 		files, _ := filepath.Glob(filepath.Join(*plans, "*.ndjson"))
 		sort.Strings(files)
-		for _, f := range files {
+		for pi, f := range files {
 			p := readPlan(f)
 			if len(p) == 0 || p[0].Op != "init" {
 				tr.Fatal("plan %s does not start with init", f)
@@ -1238,7 +1698,8 @@ func main() {
 					}
 				}
 			}
-			r := newRunner(w, rng, p[0].Api, p[0].Deg, lo, hi, *sweep, 1, "plan:"+filepath.Base(f))
+			r := newRunner(w, rng, cfg{api: p[0].Api, src: "plan:" + filepath.Base(f), deg: p[0].Deg, fl: []int{-1, 0, 1000}[pi%3],
+				lo: lo, hi: hi, sweep: *sweep, dumpK: 1, retain: pi%2 == 1})
 			for _, a := range p[1:] {
 				r.step(a)
 			}
@@ -1251,24 +1712,14 @@ func main() {
 	for i := 0; i < *npar; i++ {
 		runParallel(w, rng, 2+i%3, 20+rng.Intn(30))
 	}
-	w.Close()
-
-	cw := tr.Create(*conc)
-	for i := 0; i < *nconc; i++ {
-		runConc(cw, rng, 3, 4+i%3, 3+rng.Intn(4))
+	okc := true
+	for i := 0; i < *nconc && okc; i++ {
+		okc = runConc(cw, rng, 3, 4+i%3, 3+rng.Intn(4))
 	}
-	for i := 0; i < *nstress; i++ {
-		runConc(cw, rng, 4, 40, 10+rng.Intn(8))
+	for i := 0; i < *nstress && okc; i++ {
+		okc = runConc(cw, rng, 4, 40, 10+rng.Intn(8))
 	}
-	ran, kept := runRaces(cw, rng, *nrace, *nracekeep)
+	ran, kept := runRaces(cw, rng, *nrace, *nracekeep, time.Duration(*racesecs)*time.Second)
 	st.RaceRounds, st.RaceKept = ran, kept
-	cw.Close()
-	st.Events = w.N() + cw.N()
-	if *statf != "" {
-		bs, _ := json.Marshal(st)
-		if err := os.WriteFile(*statf, bs, 0o644); err != nil {
-			tr.Fatal("%v", err)
-		}
-	}
-	fmt.Printf("seq_events=%d conc_events=%d max_height=%d panics=%d\n", w.N(), cw.N(), st.MaxHeight, st.Panics)
+	finish()
 }
